@@ -52,24 +52,24 @@ CLAIMS = {
          "routed-exactly-once / every-<r/>-answered / no phantom for all interleavings up to the bound and emits every environment history; "
          "each history is played by the scripted server against a real Client (lock-step barriers, plus chunked, big and burst variants, SM on "
          "and off, worker subprocesses so a panic is an observation) and TLC compares, barrier by barrier, handler calls and answers with the model.",
-    note="Trusted: TLC, the scripted server's element splitter, the verif hooks used only to detect quiescence. The happy-path negotiation (PLAIN without TLS, bind, <enabled resume=true>) is a precondition. Exhaustive only within the bounds in the evidence; beyond them seeded variants (chunked writes, big stanzas, RST, burst histories). Every scenario family is also driven over the WebSocket transport (RFC 7395 framing, in-process server) for a sample of the histories; write faults over WebSocket are injected at the dialled TCP connection.", technique=TECH),
+    note="Trusted: TLC, the scripted server's element splitter, the verif hooks used only to detect quiescence. The happy-path negotiation (PLAIN without TLS, bind, <enabled resume=true>) is a precondition. Exhaustive only within the bounds in the evidence; beyond them seeded variants (chunked writes, big stanzas, RST, burst histories). Sampled histories are also run over STARTTLS (TLS 1.2 / 1.3, with and without a stream logger; the last stanza and the close_notify arrive in one read), with elements padded to the exact sizes around the buffer and read limits, and with a connection that dies silently (only the keepalive notices). Every scenario family is also driven over the WebSocket transport (RFC 7395 framing, in-process server) for a sample of the histories; write faults over WebSocket are injected at the dialled TCP connection.", technique=TECH),
  "C09": dict(
     text="Same model and pipeline as C05 with the inbound alphabet {message, presence, iq, <r/>, <a/>, features}: TLC checks that the "
          "reference counter equals the number of stanzas before each request; on the real client every <a/> the server receives and the "
          "public SMState.Inbound at every barrier must equal the reference count; burst histories up to 65 elements. The h of <resume/> is checked by C11.",
-    note="Trusted: TLC, the scripted server's element splitter, the verif hooks used only to detect quiescence. The happy-path negotiation (PLAIN without TLS, bind, <enabled resume=true>) is a precondition. Exhaustive only within the bounds in the evidence; beyond them seeded variants (chunked writes, big stanzas, RST, burst histories). Every scenario family is also driven over the WebSocket transport (RFC 7395 framing, in-process server) for a sample of the histories; write faults over WebSocket are injected at the dialled TCP connection.", technique=TECH),
+    note="Trusted: TLC, the scripted server's element splitter, the verif hooks used only to detect quiescence. The happy-path negotiation (PLAIN without TLS, bind, <enabled resume=true>) is a precondition. Exhaustive only within the bounds in the evidence; beyond them seeded variants (chunked writes, big stanzas, RST, burst histories). Sampled histories are also run over STARTTLS (TLS 1.2 / 1.3, with and without a stream logger; the last stanza and the close_notify arrive in one read), with elements padded to the exact sizes around the buffer and read limits, and with a connection that dies silently (only the keepalive notices). Every scenario family is also driven over the WebSocket transport (RFC 7395 framing, in-process server) for a sample of the histories; write faults over WebSocket are injected at the dialled TCP connection.", technique=TECH),
  "C10": dict(
     text="Session.tla models numbering, holding, acknowledgement and retransmission; TLC checks the bookkeeping invariants and the ack-step "
          "action property for all interleavings and emits every history of Send/SendRaw/SendIQ (stanzas, <r/>, <a/>) and server acks with any h; "
          "on the real client the wire output after every step and the exported queue (tags, ids) must equal the model's under at least one "
          "of the two readings of renumbering.",
-    note="Trusted: TLC, the scripted server's element splitter, the verif hooks used only to detect quiescence. The happy-path negotiation (PLAIN without TLS, bind, <enabled resume=true>) is a precondition. Exhaustive only within the bounds in the evidence; beyond them seeded variants (chunked writes, big stanzas, RST, burst histories). Every scenario family is also driven over the WebSocket transport (RFC 7395 framing, in-process server) for a sample of the histories; write faults over WebSocket are injected at the dialled TCP connection." + " Concurrent senders racing with acknowledgement processing are covered by C08's stress driver only for loss/duplication, not for the exact ack arithmetic.", technique=TECH),
+    note="Trusted: TLC, the scripted server's element splitter, the verif hooks used only to detect quiescence. The happy-path negotiation (PLAIN without TLS, bind, <enabled resume=true>) is a precondition. Exhaustive only within the bounds in the evidence; beyond them seeded variants (chunked writes, big stanzas, RST, burst histories). Sampled histories are also run over STARTTLS (TLS 1.2 / 1.3, with and without a stream logger; the last stanza and the close_notify arrive in one read), with elements padded to the exact sizes around the buffer and read limits, and with a connection that dies silently (only the keepalive notices). Every scenario family is also driven over the WebSocket transport (RFC 7395 framing, in-process server) for a sample of the histories; write faults over WebSocket are injected at the dialled TCP connection." + " Concurrent senders racing with acknowledgement processing are covered by C08's stress driver only for loss/duplication, not for the exact ack arithmetic.", technique=TECH),
  "C12": dict(
     text="Session.tla's ServerCut/RecvErr; every generated history is cut at every element boundary, and the harness additionally cuts at "
          "every byte offset of every element kind (FIN and RST) and injects write failures; TLC checks exactly one error callback, exactly one "
          "Disconnected event carrying the SM state, all complete stanzas routed, receive loop and keepalive ended (hooks), no library goroutine "
          "left (stack dump), no panic (worker survives).",
-    note="Trusted: TLC, the scripted server's element splitter, the verif hooks used only to detect quiescence. The happy-path negotiation (PLAIN without TLS, bind, <enabled resume=true>) is a precondition. Exhaustive only within the bounds in the evidence; beyond them seeded variants (chunked writes, big stanzas, RST, burst histories). Every scenario family is also driven over the WebSocket transport (RFC 7395 framing, in-process server) for a sample of the histories; write faults over WebSocket are injected at the dialled TCP connection.", technique=TECH),
+    note="Trusted: TLC, the scripted server's element splitter, the verif hooks used only to detect quiescence. The happy-path negotiation (PLAIN without TLS, bind, <enabled resume=true>) is a precondition. Exhaustive only within the bounds in the evidence; beyond them seeded variants (chunked writes, big stanzas, RST, burst histories). Sampled histories are also run over STARTTLS (TLS 1.2 / 1.3, with and without a stream logger; the last stanza and the close_notify arrive in one read), with elements padded to the exact sizes around the buffer and read limits, and with a connection that dies silently (only the keepalive notices). Every scenario family is also driven over the WebSocket transport (RFC 7395 framing, in-process server) for a sample of the histories; write faults over WebSocket are injected at the dialled TCP connection.", technique=TECH),
  "C08": dict(
     text="SendPath.tla models each send as serialise(+queue push) then ONE atomic transport write, for N concurrent senders with a write "
          "fault at the k-th write; TLC checks wire-is-a-shuffle-of-whole-stanzas / failed-write-reported / pushed-once for all schedules and shows "
